@@ -2,6 +2,7 @@ import M3d.Basic
 import M3d.Model.CodecIO
 import M3d.Model.CodecSpec
 import M3d.Model.CodecRound
+import M3d.Model.CodecFace
 /-! Line-protocol handler for C15 (codec round trips). Core-only. -/
 namespace M3d.Drv.C15
 open M3d M3d.Codec M3d.Codec.IO
@@ -120,6 +121,127 @@ def handleOff (ws : List String) : Option String := do
         " " ++ toString p.length ++ String.join (p.map fun v => " " ++ showC3 v))
   some (showHex bytes ++ " " ++ dec)
 
+/-! ### polygon faces through `ReadOFF` (kind `offp`) -/
+
+section OffPoly
+open M3d.Tri M3d.Codec.Face
+
+abbrev Q := Rat
+
+def pow2Q (k : Nat) : Q := ((2 ^ k : Nat) : Q)
+
+/-- exact value of a finite float64 bit pattern -/
+def ratOfF64 (b : UInt64) : Option Q :=
+  let e := ((b >>> 52) &&& 0x7ff).toNat
+  let m := (b &&& 0xfffffffffffff).toNat
+  if e = 0x7ff then none else
+  let mag : Q := if e = 0 then (m : Q) / pow2Q 1074
+    else if e ≥ 1075 then ((2 ^ 52 + m : Nat) : Q) * pow2Q (e - 1075)
+    else ((2 ^ 52 + m : Nat) : Q) / pow2Q (1075 - e)
+  some (if b >>> 63 = 1 then -mag else mag)
+
+def ratP3 (v : V3) : Option (P3 Q) := do
+  let x ← ratOfF64 v.1; let y ← ratOfF64 v.2.1; let z ← ratOfF64 v.2.2
+  pure ⟨x, y, z⟩
+
+def sgnQ (q : Q) : Int := if q < 0 then -1 else if 0 < q then 1 else 0
+
+def onSegQ (a b p : P2 Q) : Bool :=
+  orient a b p == 0 && decide (min a.x b.x ≤ p.x) && decide (p.x ≤ max a.x b.x) &&
+    decide (min a.y b.y ≤ p.y) && decide (p.y ≤ max a.y b.y)
+
+def segsTouch (a b c d : P2 Q) : Bool :=
+  let o1 := sgnQ (orient a b c); let o2 := sgnQ (orient a b d)
+  let o3 := sgnQ (orient c d a); let o4 := sgnQ (orient c d b)
+  (o1 * o2 < 0 && o3 * o4 < 0) || onSegQ a b c || onSegQ a b d || onSegQ c d a || onSegQ c d b
+
+/-- strictly simple closed polygon (straight corners allowed, spikes not) -/
+def simpleLoop (l : List (P2 Q)) : Bool :=
+  let n := l.length
+  let at_ (i : Nat) : P2 Q := l.getD (i % n) ⟨0, 0⟩
+  decide (3 ≤ n) && decide l.Nodup &&
+  (List.range n).all (fun i =>
+    let a := at_ i; let b := at_ (i + 1); let c := at_ (i + 2)
+    orient a b c != 0 || onSegQ a c b) &&
+  (List.range n).all fun i => (List.range n).all fun j =>
+    if i + 1 < j && !(i == 0 && j + 1 == n) then
+      !segsTouch (at_ i) (at_ (i + 1)) (at_ j) (at_ (j + 1))
+    else true
+
+/-- Input validation (untrusted helper: decides whether the GENERATOR produced a face the property
+speaks about): at least three distinct corners, exactly planar, non-zero area, simple in the chart. -/
+def validFace (f : List (P3 Q)) : Bool :=
+  let N := faceNormal (cornerFn f) f.length
+  decide (3 ≤ f.length) && planar (cornerFn f) f.length N &&
+  match chartOf N with
+  | none => false
+  | some k => simpleLoop (f.map (chartFn k))
+
+/-- the result field: `x` (ReadOFF failed) or `<n> {9 float64}` -/
+def pResult : P (Option (List Tri3)) := do
+  let t ← tok
+  if t ≠ "R" then failure
+  match ← tok with
+  | "x" => pure none
+  | n => match n.toNat? with
+    | some n => do let ts ← pMany pTri3 n; pure (some ts)
+    | none => failure
+
+def ratT3 (t : Tri3) : Option (T3 Q) := do
+  let a ← ratP3 t.1; let b ← ratP3 t.2.1; let c ← ratP3 t.2.2
+  pure (a, b, c)
+
+/-- Why `checkFaces` fails (diagnosis only; the verdict is `checkFaces`). -/
+def whyNot : Nat → List (List (P3 Q)) → List (T3 Q) → String
+  | _, [], ts => if ts.isEmpty then "?" else s!"extra-triangles-after-last-face:{ts.length}"
+  | i, f :: fs, ts =>
+    let N := faceNormal (cornerFn f) f.length
+    match chartOf N with
+    | none => "?"
+    | some k =>
+      match faceGroup f ts with
+      | none =>
+        -- no prefix adds up to the face's area: which triangle goes wrong first?
+        let bad := ts.findIdx fun t => sgnQ (comp k (normal3 t)) != sgnQ (comp k N)
+        if bad < ts.length then s!"face={i}:orientation-or-degenerate(triangle {bad} of the rest)"
+        else s!"face={i}:area(the remaining triangles do not add up to the face)"
+      | some (g, rest) =>
+        let ids := g.map (idTri f)
+        if faceCertOk (cornerFn f) f.length ids then whyNot (i + 1) fs rest
+        else if ids.any fun t => t.1 ≥ f.length || t.2.1 ≥ f.length || t.2.2 ≥ f.length then
+          s!"face={i}:foreign-vertex"
+        else if g.any fun t => sgnQ (comp k (normal3 t)) != sgnQ (comp k N) then
+          s!"face={i}:orientation-or-degenerate"
+        else s!"face={i}:edges-do-not-glue(overlap-gap-or-outside)"
+
+/-- `offp <nv> {3 float64} <nf> {k idx…} ft… R (x | <nt> {9 float64})` : OFF text to the
+specification whose faces are planar simple polygons; the triangles `model3d.ReadOFF` returned are
+checked against the faces the reader model decodes (`off_mesh_spec`) with the verified certificate
+(`M3d.C15.off_polygons_tiled`).  `ok` iff every face is tiled by its group of triangles, oriented
+like the face, groups in file order. -/
+def handleOffPoly (ws : List String) : Option String := do
+  let (vs, fs, tb, res) ← run (do
+    let vs ← pCounted pC3; let fs ← pCounted (pCounted pNat); let tb ← pTables; let res ← pResult
+    pure (vs, fs, tb, res)) ws
+  let bytes := offSpec tb.floatText.fmt64 vs fs
+  let verdict : String :=
+    match offDecodeMesh tb.pf64 bytes with
+    | none => "decode-error"
+    | some polys =>
+      match polys.mapM (fun p => p.mapM ratP3) with
+      | none => "invalid-input"
+      | some faces =>
+        if !faces.all validFace then "invalid-input" else
+        match res with
+        | none => "bad:read-error"
+        | some ts =>
+          match ts.mapM ratT3 with
+          | none => "bad:non-finite-coordinate"
+          | some tris => if checkFaces faces tris then "ok" else "bad:" ++ whyNot 0 faces tris
+  some (showHex bytes ++ " " ++ verdict)
+
+end OffPoly
+
 def showFace (f : List Nat) : String := ",".intercalate (f.map toString)
 
 /-- `obj <ntri> {9 float64} {material id per triangle}` : vertex table, faces, material groups. -/
@@ -132,6 +254,50 @@ def handleObj (ws : List String) : Option String := do
     " G " ++ toString groups.length ++ String.join ((ms.zip groups).map fun (m, fs) =>
       " m" ++ toString m ++ " " ++ toString fs.length ++ String.join (fs.map fun f => " " ++ showFace f)))
 
+/-! ### 3MF (kind `3mf`) -/
+
+def lexLt : List UInt64 → List UInt64 → Bool
+  | [], [] => false
+  | [], _ => true
+  | _, [] => false
+  | a :: as, b :: bs => if a < b then true else if b < a then false else lexLt as bs
+
+/-- `3mf <n> {9 float64}` : the vertex count and the index triples of `newIndexMesh` (= `meshIndex`),
+resolved against the vertex table (`M3d.C15.mesh_index_resolves`: the triangles themselves, up to
+−0 ≡ +0) and sorted, because `Write3MF` visits the mesh in Go map order
+(`M3d.C15.mesh_index_table_size`: the table size does not depend on the order). -/
+def handle3mf (ws : List String) : Option String := do
+  let ts ← run (pCounted pTri3) ws
+  let (coords, faces) := meshIndex ts
+  let resolved : List (List UInt64) := faces.map fun f => (f.map fun j =>
+    let k := key3 (coords.getD j (0, 0, 0)); [k.1, k.2.1, k.2.2]).flatten
+  let sorted := sortBy lexLt resolved
+  some ("V " ++ toString coords.length ++ " T " ++ toString sorted.length ++
+    String.join (sorted.map fun t => String.join (t.map fun x => " " ++ hex64 x)))
+
+/-! ### OBJ exports at file level (kind `objx`) -/
+
+/-- `objx <variant> <n> {9 float64} {material id per triangle}` : what a Wavefront reader must find
+in the exported file — the size of the vertex table, and per material group (in order of first
+appearance; a single group for the vertex-colour / UV-map / quantized-texture variants) the faces in
+order, each resolved through the vertex table (`M3d.C15.mesh_index_resolves`: the triangle itself up
+to −0 ≡ +0; `obj_each_face_once`, `obj_indices_in_range`, `obj_group_in_range`). -/
+def handleObjX (ws : List String) : Option String := do
+  let (variant, rest) ← (match ws with | v :: r => some (v, r) | [] => none)
+  let (ts, mats) ← run (do let ts ← pCounted pTri3; let m ← pMany pNat ts.length; pure (ts, m)) rest
+  let (coords, faces) := meshIndex ts
+  let resolved : List String := faces.map fun f => String.join (f.map fun j =>
+    let k := key3 (coords.getD j (0, 0, 0)); " " ++ hex64 k.1 ++ " " ++ hex64 k.2.1 ++ " " ++ hex64 k.2.2)
+  let groups : List (String × List String) :=
+    if variant = "mat" then
+      let (_, ms, assign) := objMaterial (fun i => mats.getD i 0) ts
+      (List.range ms.length).map fun g =>
+        (toString (ms.getD g 0), ((assign.zip resolved).filter fun x => x.1.1 = g).map (·.2))
+    else [("-", resolved)]
+  let groups := groups.filter fun g => !g.2.isEmpty
+  some ("V " ++ toString coords.length ++ " G " ++ toString groups.length ++
+    String.join (groups.map fun g => " m" ++ g.1 ++ " " ++ toString g.2.length ++ String.join g.2))
+
 def handleAll (ws : List String) : Option String :=
   match ws with
   | "stl" :: rest => handleStl rest
@@ -141,7 +307,10 @@ def handleAll (ws : List String) : Option String :=
   | "plym" :: rest => handlePlyMesh rest
   | "csv" :: rest => handleCsv rest
   | "off" :: rest => handleOff rest
+  | "offp" :: rest => handleOffPoly rest
   | "obj" :: rest => handleObj rest
+  | "3mf" :: rest => handle3mf rest
+  | "objx" :: rest => handleObjX rest
   | _ => none
 
 end M3d.Drv.C15
